@@ -21,6 +21,8 @@ RULE = (
     "only preconditions — on every callable kind) must raise ValueError at definition; (c) reading an uncaptured OLD name "
     "must raise AttributeError naming it. Non-trivial = a snapshot was declared on the callable; distinct = (shape, kind, "
     "async, class, truth vector, script)."
+    ' Fixed scenario: captured values that are awaitable objects of their own right (object with __await__, finishe'
+    'd future) reach postconditions and error factories as the very object, un-awaited (sync and async).'
 )
 ASSUMPTIONS = ["reference model encodes the statement's snapshot rules"]
 
